@@ -26,3 +26,42 @@ func init() {
 			c.min("R-OWN/fresh", 8)
 		})
 }
+
+var trieWalkers = []walkerSpec{
+	{dir: inmemDir, fn: "retrieveFromBranch", keyParam: 2, k1: "return-value"},
+	{dir: inmemDir, fn: "retrieveFromLeaf", keyParam: 2, k1: "return-value"},
+	{dir: inmemDir, fn: "(*InMemoryTrie).deleteLeaf", keyParam: 2, k1: "register-deleted"},
+	{dir: inmemDir, fn: "(*InMemoryTrie).deleteBranch", keyParam: 2, k1: "store-nil-value"},
+	{dir: inmemDir, fn: "getFromDBAtNode", keyParam: 2, k1: "return-value"},
+	{dir: inmemDir, fn: "getKeysWithPrefixFromBranch", keyParam: 2},
+	{dir: inmemDir, fn: "(*InMemoryTrie).clearPrefixLimitBranch", keyParam: 2},
+	{dir: inmemDir, fn: "(*InMemoryTrie).clearPrefixLimitChild", keyParam: 2, caller: true},
+	{dir: inmemDir, fn: "(*InMemoryTrie).clearPrefixAtNode", keyParam: 2},
+	{dir: inmemDir, fn: "(*InMemoryTrie).insertInBranch", keyParam: 2},
+}
+
+var proofWalkers = []walkerSpec{
+	{dir: "pkg/trie/inmemory/proof", fn: "walkRoot", keyParam: 1, k1: "found-return"},
+	{dir: "pkg/trie/inmemory/proof", fn: "walk", keyParam: 1, k1: "found-return"},
+}
+
+func init() {
+	register("C02", "radix-trie walker rules on SSA (R-KEYMATCH K1/K2), prefix conversion (R-PREFIX), pre-order consumption (R-PREORDER), nil-vs-empty value tests (R-NILVALUE)",
+		"Decides for every path of the in-memory trie walkers: a node is the target of get/delete only through an exact partial-key match (K1); a walker descends into Children[key[i]] only when the node's partial key is a prefix of the key (K2); byte prefixes reach the nibble walkers unmodified (R-PREFIX); limited deletion consumes a branch's own value before its children (R-PREORDER); presence of a value is tested with nil, never with len()==0 (an empty value is a value). "+
+			"These are necessary for the trie to behave as an ordered byte-string map for every key set. Not decided: NextKey ordering, limit accounting, merge shapes.",
+		"bytes.Equal/HasPrefix trusted; walker table frozen (12 walkers)", "DESIGN.md §3 R-KEYMATCH, R-PREFIX, R-PREORDER; §4 C02",
+		func(c *Ctx) {
+			c.load("pkg/trie/inmemory", "pkg/trie/node")
+			c.ruleKeyMatch(trieWalkers)
+			c.min("R-KEYMATCH/K2", 8)
+			c.min("R-KEYMATCH/K1", 5)
+			c.rulePrefix()
+			c.min("R-PREFIX", 4)
+			c.rulePreorder()
+			c.min("R-PREORDER", 2)
+			c.ruleNilValue("pkg/trie/inmemory")
+			c.min("R-NILVALUE", 7)
+			c.ruleValueCarry(ownExempt)
+			c.min("R-VALUECARRY", 6)
+		})
+}
